@@ -496,8 +496,16 @@ def normalise(seq):
             out.append(('REP', normalise(it[1]), it[2], it[3]))
         elif it[0] == 'ALT':
             a, b = normalise(it[2]), normalise(it[3])
+            cond_ = it[1]
+            if isinstance(cond_, str) and cond_.startswith('not ') and '(' not in cond_[4:].split(' ')[0] and ' and ' not in cond_ and ' or ' not in cond_:
+                # (not c ? A : B)  ==  (c ? B : A)
+                cond_, a, b = cond_[4:], b, a
+                it = ('ALT', cond_, a, b)
             if a == b:
                 out.extend(a)
+            elif len(a) == 1 and len(b) == 1 and a[0][0] == 'F' and b[0][0] == 'F' and a[0][1] == b[0][1]:
+                # the same field packed with one of two values: a field whose value depends on the flag
+                out.append(('F', a[0][1], 'ite(%s, %s, %s)' % (it[1], a[0][2], b[0][2])))
             elif len(a) == 1 and len(b) == 1 and a[0][0] == 'C' and b[0][0] == 'C' and len(a[0][1]) == len(b[0][1]) and len(a[0][1]) in (1, 2):
                 # a constant selected by a flag is a field whose value depends on the flag
                 n = len(a[0][1])
